@@ -115,7 +115,7 @@ func VerifReadSeekHistory() {
 		if nreaders > 1 {
 			r = verifrt.Choose(nreaders)
 		}
-		if verifrt.Choose(2) == 0 {
+		if verifrt.Param("readonly", 0) == 0 && verifrt.Choose(2) == 0 {
 			whence := verifrt.Choose(3)
 			off := int64(verifrt.IntRange(-(1 << 40), 1<<40))
 			checkSeek(tag, rss[r], ms[r], off, whence)
